@@ -46,7 +46,7 @@ IMPORT_EXC = {"syntax_error": "SyntaxError", "import_error": "ModuleNotFoundErro
 SYSEXIT_IMPORT = COLLECT_FAULTS["sysexit_import"]
 DAG_FAULTS = ("bad_k", "bad_m", "bad_after", "cycle", "self_cycle", "duplicate_product")
 TASK_FAULTS = ("early", "late", "omit", "sysexit", "loadfail", "savefail", "state", "hash", "marker", "missing_input", "deldep")
-FINDING_DELDEP = "F29"
+FINDING_DELDEP = None    # F29 fixed in ed849b4: the pattern below is an ordinary violation again
 
 
 # ------------------------------------------------------------------------------------------------
@@ -162,6 +162,23 @@ def gen_case(rng, shape=None):
     if rng.random() < 0.2:
         cfg["k"] = " or ".join(project.tname(t["id"]) for t in rng.sample(spec["tasks"], rng.randint(1, 2)))
     kw_extra = {}
+    # legal but unusual declarations (no fault): an `after` expression that also matches the declaring task's own name (a task
+    # is never scheduled after itself), and products that are not path-like nodes
+    names = [project.tname(t["id"]) for t in spec["tasks"]]
+    for t in spec["tasks"]:
+        if t.get("after") and rng.random() < 0.6:
+            parts = [project.tname(a) for a in t["after"]] + [project.tname(t["id"])]
+            rng.shuffle(parts)
+            t["after_expr"] = " or ".join(parts)
+    last = spec["tasks"][-1]
+    if not last.get("after") and len(spec["tasks"]) <= 9 and rng.random() < 0.25:
+        # a substring of every task name: matches all tasks, the declaring one included
+        last["after"] = sorted(u["id"] for u in spec["tasks"][:-1])
+        last["after_expr"] = rng.choice(["task_t0", "TASK_T", "t0"])
+    consumed = {d for t in spec["tasks"] for d in t["deps"]}
+    for t in spec["tasks"]:
+        if t["prods"] and not (set(t["prods"]) & consumed) and rng.random() < 0.3:
+            t["blob_prods"] = True
 
     def add_phase_fault():
         ph = rng.choice(["config", "collect", "dag", "dag"])
@@ -221,7 +238,7 @@ def corpus():
     s = copy.deepcopy(base); s["extra_modules"] = {SYSEXIT_IMPORT[0]: SYSEXIT_IMPORT[1]}
     out.append({"tag": "corpus-sysexit-import", "spec": s, "steps": [["build", {}, {}]],
                 "faults": [{"kind": "sysexit_import", "phase": "collect"}]})
-    # F29: the body deletes its own (private) dependency after writing its product
+    # F29 (fixed): the body deletes its own (private) dependency after writing its product: FAIL, dependant skipped, sibling runs
     s = copy.deepcopy(base); s["inputs"]["104"] = 9
     s["tasks"][0].update({"deps": [100, 104], "faulty_dep": 104, "beh": "deldep"})
     out.append({"tag": "corpus-F29", "spec": s, "steps": [["build", {}, {}], ["build", {}, {}]],
@@ -305,7 +322,7 @@ def oracle(case, recs):
                 node_faults.setdefault(int(e[1].split(":")[0]), set()).add(e[0])
         failed = [t for t in order if out[t] == "FAIL"]
         deleted = [int(e[1]) for e in log if e[0] == "D"]
-        # known finding F29 (narrow): a task whose body deleted its own dependency ran to completion and then has NO report
+        # F29 (fixed in ed849b4; kept as a recogniser for the replay): a task whose body deleted its own dependency ran to completion and then has NO report
         # (update_states_in_database raised IntegrityError inside process_report), the loop was aborted right there (every
         # other task either has a report or never started) and the exit code is 1
         f29 = [t for t in deleted if t in deldep_tasks and t in ends and t not in out]
@@ -418,7 +435,7 @@ def replay_in_model(drv, case, recs):
         obs, cfg = rec["obs"], dict(rec["cfg"])
         conf, ph, imp = model_faults(case, step)
         if rec.get("f29"):
-            break    # known finding F29: the model has no behaviour "body deletes a dependency" in the unrepaired code
+            break    # F29 pattern (an oracle violation): the model has no behaviour "body deletes a dependency" in the unrepaired code
         if "dag:ValueError" in ph:
             # the unparsable expression never selects anything in the model: do not try to evaluate it
             for key in ("k", "m"):
